@@ -95,7 +95,7 @@ def verify(prop, src, name, log):
         # 3. pinned suite modules that can be affected
         for m in affected_pinned(files):
             cmd = "go test -vet=off -count=1 -timeout 25m ./..."
-            rc, out = sh(cmd, cwd=os.path.join(wt, m))
+            rc, out = sh(cmd, cwd=os.path.join(wt, m), shell=True)
             ran.append({"cmd": cmd, "cwd": m, "tree": "patched", "exit": rc})
             log("  %s/%s pinned %s: exit %s" % (prop, name, m, rc))
             if rc != 0:
